@@ -228,11 +228,19 @@ func builtinStringReplace(call FunctionCall) Value {
 			find = -1
 			global = true
 		}
-	} else {
-		search = regexp.MustCompile(regexp.QuoteMeta(searchValue.string()))
 	}
 
-	found := search.FindAllSubmatchIndex(target, find)
+	var found [][]int
+	if search != nil {
+		found = search.FindAllSubmatchIndex(target, find)
+	} else {
+		// A string is searched for literally (not through a quoted regular
+		// expression, which can't be compiled when the string isn't valid UTF-8).
+		needle := []byte(searchValue.string())
+		if index := bytes.Index(target, needle); index >= 0 {
+			found = [][]int{{index, index + len(needle)}}
+		}
+	}
 	if found == nil {
 		return stringValue(string(target)) // !match
 	}
